@@ -65,7 +65,7 @@ def conformance(tier, seed):
 
 
 def generators(tier, seed):
-    return [dict(module="MC_C18", cfg="MC_C18_t", workers=4)]
+    return [dict(module="MC_C18b", cfg="MC_C18b", workers=2), dict(module="MC_C18", cfg="MC_C18_t", workers=4)]
 
 MANIFEST = dict(
     design_ref="DESIGN.md §5 C18",
